@@ -141,6 +141,12 @@ run_directed = directed.run
 
 
 def cases(tier, rng):
+    for c in directed.partial_binding_a_parameter_name_cases():
+        yield "directed-partial-binding-a-parameter-name", c
+    for c in directed.odd_capture_callables_cases():
+        yield "directed-odd-capture-callables", c
+    for c in directed.functions_from_one_definition_cases():
+        yield "directed-functions-from-one-definition", c
     thorough = tier == "thorough"
     for c in directed.contracts_on_partial_cases():
         yield "directed-contracts-on-partial", c
